@@ -94,6 +94,9 @@ func mustLoad() *Global {
 	if r := os.Getenv("GOVC_REPO"); r != "" {
 		repoDir = r
 	}
+	if c := os.Getenv("GOVC_CONTRACTS"); c != "" {
+		contractDir = c // development aid: work on a scratch copy of the contract files
+	}
 	t0 := time.Now()
 	g, err := loadGlobal(repoDir, contractFiles())
 	if err != nil {
